@@ -28,6 +28,14 @@ type evalCase struct {
 	Want  []string        `json:"want"`  // globals to report in file mode (nil = all)
 	IDs   bool            `json:"ids"`   // encode object identities
 	Extra json.RawMessage `json:"extra"`
+	// GoCall: after the file has run, call its global f through starlark.Call with positional and named integer
+	// arguments held in buffers that are overwritten as soon as the call returns; the result becomes the global r
+	GoCall *goCall `json:"gocall"`
+}
+
+type goCall struct {
+	Pos   []int   `json:"pos"`
+	Named [][]any `json:"named"`
 }
 
 type optVec struct {
@@ -188,6 +196,31 @@ func runEvalCase(c *evalCase) (res evalResult) {
 			fillErr(&res, err)
 		} else {
 			res.OK = true
+		}
+		if err == nil && c.GoCall != nil {
+			buf := make(starlark.Tuple, len(c.GoCall.Pos))
+			for i, v := range c.GoCall.Pos {
+				buf[i] = starlark.MakeInt(v)
+			}
+			kw := make([]starlark.Tuple, len(c.GoCall.Named))
+			for i, nv := range c.GoCall.Named {
+				kw[i] = starlark.Tuple{starlark.String(nv[0].(string)), starlark.MakeInt(int(nv[1].(float64)))}
+			}
+			v, cerr := starlark.Call(th, g["f"], buf, kw)
+			// the caller owns its buffers: what the callee was given must not change with them
+			for i := range buf {
+				buf[i] = starlark.MakeInt(999)
+			}
+			for i := range kw {
+				kw[i][0], kw[i][1] = starlark.String("zz"), starlark.MakeInt(998)
+			}
+			if cerr != nil {
+				res.OK = false
+				res.Err = cerr.Error()
+				fillErr(&res, cerr)
+			} else {
+				g["r"] = v
+			}
 		}
 		names := c.Want
 		if names == nil {
